@@ -19,7 +19,7 @@ Require Import Cirbo.Model.Base Cirbo.Model.Gate Cirbo.Model.Den Cirbo.Model.Cir
 Require Import Cirbo.Generated.Operators Cirbo.Generated.GateTypes.
 Require Import Cirbo.Proofs.DictFacts Cirbo.Proofs.OpFacts Cirbo.Proofs.SemFacts
         Cirbo.Proofs.EvalFacts Cirbo.Proofs.TopSort Cirbo.Proofs.TopSortWF
-        Cirbo.Proofs.TraverseFuel Cirbo.Proofs.EvalComplete.
+        Cirbo.Proofs.TraverseInv Cirbo.Proofs.TraverseFuel Cirbo.Proofs.EvalComplete.
 
 (* ---- list facts ---- *)
 Lemma snoc_split_last {A} (s1 s2 rest : list A) e cur :
@@ -283,4 +283,47 @@ Proof.
     + destruct (eval_stack_loop_sound c a _ _ _ _ (init_assignment_sound c a Hin Ha) El) as (Hs & _ & _).
       eapply Eval_has_gate. apply Hs. exact E.
     + destruct (memb l (dkeys (gates c))) eqn:Em; [|discriminate]. apply has_gate_key, memb_In. exact Em.
+Qed.
+
+(* ---- "the part of the circuit unreachable from the outputs will be Undefined" ---- *)
+Lemma reach_subset nx (S S' : list label) l :
+  (forall s, In s S' -> reach nx S s) -> reach nx S' l -> reach nx S l.
+Proof. intros H. apply reach_closed; [exact H|]. intros x y Hx Hy. eapply reach_step; eauto. Qed.
+
+Lemma eval_stack_loop_reach c : forall fuel d stack r,
+  eval_stack_loop fuel c d stack = Ok r ->
+  forall l, dmem r l = true -> dmem d l = true \/ reach (ops_of c) stack l.
+Proof.
+  induction fuel as [|fuel IH]; intros d stack r; simpl; [discriminate|].
+  destruct (pop_last_cases stack) as [[-> Hp]|(cur & rest & -> & Hp)]; rewrite Hp.
+  - intros [= <-] l Hl. left; exact Hl.
+  - destruct (get_gate c cur) as [g|] eqn:Eg; simpl; [|discriminate]. apply get_gate_ok in Eg.
+    destruct (filter (fun op => negb (dmem d op)) (gops g)) as [|p ps] eqn:Ef.
+    + destruct (eval_gate d g) as [v|]; simpl; [|discriminate]. intros H l Hl.
+      destruct (IH _ _ _ H l Hl) as [Hd|Hr].
+      * rewrite dmem_dset in Hd. apply orb_true_iff in Hd. destruct Hd as [Hd|Hd]; [|left; exact Hd].
+        apply leqb_eq in Hd. subst l. right. apply reach_start. apply in_or_app. right. left. reflexivity.
+      * right. eapply reach_subset; [|exact Hr]. intros s Hs. apply reach_start. apply in_or_app. left. exact Hs.
+    + intros H l Hl. destruct (IH _ _ _ H l Hl) as [Hd|Hr]; [left; exact Hd|right].
+      eapply reach_subset; [|exact Hr]. intros s Hs. apply in_app_or in Hs. destruct Hs as [Hs|Hs].
+      * apply reach_start; exact Hs.
+      * apply reach_step with (a := cur); [apply reach_start; apply in_or_app; right; left; reflexivity|].
+        unfold ops_of. rewrite Eg. rewrite <- Ef in Hs. apply filter_In in Hs. apply Hs.
+Qed.
+
+Theorem evaluate_circuit_unreached fuel c a outs d l :
+  assigns_inputs_only c a -> evaluate_circuit_fuel fuel c a outs = Ok d ->
+  has_gate c l = true -> ~ In l (inputs c) -> ~ reach (ops_of c) (requested c outs) l ->
+  dget d l = Some U.
+Proof.
+  intros Ha. unfold evaluate_circuit_fuel. fold (requested c outs).
+  destruct (eval_stack_loop fuel c (init_assignment c a) _) as [r|] eqn:El; simpl; [|discriminate].
+  intros [= <-] Hl Hni Hnr. rewrite setdefaults_get.
+  apply has_gate_key, memb_In in Hl. rewrite Hl.
+  destruct (dget r l) as [v|] eqn:E; [exfalso|reflexivity].
+  destruct (eval_stack_loop_reach c _ _ _ _ El l) as [Hd|Hr]; [unfold dmem; rewrite E; reflexivity| |].
+  - rewrite init_assignment_mem in Hd. apply orb_true_iff in Hd.
+    destruct Hd as [Hd|Hd]; [apply Hni, Ha, Hd|apply Hni, memb_In, Hd].
+  - apply Hnr. eapply reach_subset; [|exact Hr]. intros s Hs. apply filter_In in Hs.
+    apply reach_start. apply Hs.
 Qed.
